@@ -51,11 +51,16 @@ pub struct Scenario {
     /// chronyd listens on its UDP command port (127.0.0.1:323, in a private network namespace) instead of the
     /// Unix socket
     pub udp_only: bool,
+    /// the scenario expects Synchronized publications: on a slow or loaded machine the observation is extended
+    /// (up to four times `observe_ms`) until this many have been seen
+    pub wait_for_synchronized: u32,
+    /// likewise for publications of any status
+    pub wait_for_publications: u32,
 }
 
 impl Scenario {
     pub fn blank() -> Scenario {
-        Scenario { name: "", args: vec![], chronyd: None, phc: PhcFile::Absent, preexisting: None, observe_ms: 1000, block_directory: false, chronyd_delay_ms: 0, reply_delays_ms: vec![], tag_replies: false, udp_only: false }
+        Scenario { name: "", args: vec![], chronyd: None, phc: PhcFile::Absent, preexisting: None, observe_ms: 1000, block_directory: false, chronyd_delay_ms: 0, reply_delays_ms: vec![], tag_replies: false, udp_only: false, wait_for_synchronized: 0, wait_for_publications: 0 }
     }
 }
 
@@ -221,7 +226,7 @@ fn fake_chronyd(sc: &Scenario, arrivals: Arrivals) -> Result<(), String> {
 
 /// Run one scenario; the result describes what an outside observer saw.
 pub fn run_scenario(bin: &str, sc: &Scenario) -> Result<Value, String> {
-    let limit_s = sc.observe_ms / 1000 + 25;
+    let limit_s = 4 * sc.observe_ms / 1000 + 25;
     let bin = bin.to_string();
     let sc2 = sc.clone();
     run_with_timeout(limit_s, move || {
@@ -262,7 +267,10 @@ pub fn run_scenario(bin: &str, sc: &Scenario) -> Result<Value, String> {
         loop {
             let t = mono_ms() - t0;
             if t > sc.observe_ms {
-                break;
+                let synced = pubs.iter().filter(|p| p["status"] == 1).count() as u32;
+                if (synced >= sc.wait_for_synchronized && pubs.len() as u32 >= sc.wait_for_publications) || t > 4 * sc.observe_ms {
+                    break;
+                }
             }
             if let PhcFile::AppearsAfter(ms, v) = sc.phc {
                 if !appeared && t >= ms {
